@@ -193,4 +193,26 @@ def search(chk, broken):
                     chk.failures.append(Failure('spin-drift', f'spin drift {got} in at t={a.time}, Litz/Miller gives {exp} in',
                                                 {'op': 'spin', 'twist_in': tw, 'observed': got, 'expected': exp}))
                     break
+    # the angle column is the DIRECTION of the velocity - in all four quadrants (a projectile blown or falling backwards has vx <= 0):
+    # rows built directly from explicit velocity vectors
+    from py_ballisticcalc.trajectory_calc import _trajectory_calc as tcm
+    for _ in range(200 if (chk.tier == 'quick' and not broken) else 5000):
+        vx = rng.choice([rng.uniform(-400, 3000), rng.uniform(-400, 0), 0.0])
+        vy = rng.choice([rng.uniform(-2000, 2000), 0.0]) if vx != 0 else rng.choice([-120.0, 90.0, rng.uniform(-500, 500)])
+        if vx == 0 and vy == 0:
+            continue
+        v = pbc.Vector(vx, vy, rng.uniform(-20, 20))
+        try:
+            row = tcm.create_trajectory_row(1.0, pbc.Vector(100.0, 5.0, 0.0), v, v.magnitude(), 1116.0, 0.0, 0.0, 1.0, 0.5, 150.0, 8)
+        except Exception:  # noqa
+            continue
+        evals += 1
+        ang = row.angle >> U.Radian
+        hyp = math.hypot(vx, vy)
+        if abs(math.cos(ang) - vx / hyp) > 1e-9 or abs(math.sin(ang) - vy / hyp) > 1e-9:
+            chk.failures.append(Failure('angle-not-velocity-direction',
+                                        f'a row built from the velocity ({vx}, {vy}) fps reports angle {math.degrees(ang):.3f} deg; the direction of that velocity is '
+                                        f'{math.degrees(math.atan2(vy, vx)):.3f} deg',
+                                        {'op': 'angle', 'vx': vx, 'vy': vy, 'observed_rad': ang, 'expected_rad': math.atan2(vy, vx)}))
+            break
     chk.search_evals += evals
